@@ -33,7 +33,7 @@ package pool
 //@ ensures [signature-first] {C06} !authOK ==> p.Store.nonce == old(p.Store.nonce) && effects == old(effects)
 //@ ensures [one-effect] err == nil ==> effects == old(effects) + 1
 //@ ensures [a-verified-identity-is-a-full-node-id-or-address] {C15} err == nil ==> len(nodeID) >= 42
-//@ modifies authOK, authMethod, authID, authNonce, authArgs, nonceOK, nonceID, nonceVal, p.Store.nonce, effects
+//@ modifies authOK, authMethod, authID, authNonce, authArgs, nonceOK, nonceID, nonceVal, p.Store.nonce, effects, lastJSON, lastAddr, clock, alloc
 
 // the address a connection reports for its remote end (the method of the anonymous interface connect asserts for)
 //@ ghost var lastRemoteAddr string
@@ -230,6 +230,7 @@ package pool
 //@ ensures [cut-off-asks-the-hosts] {C03} typeis(err, balance.LowBalanceError) ==> callcount("disconnectPeers") == 1
 //@        && callarg("disconnectPeers", 2)[0] == nodeID && callarg("disconnectPeers", 3)[0] == store.lastNodePeers
 //@ ensures [nobody-else-is-cut-off] {C03} !typeis(err, balance.LowBalanceError) ==> callcount("disconnectPeers") == 0
+//@ ensures [a-response-of-its-own] {C10} err == nil ==> result != nil && !old(allocated(ref(result)))
 //@ ensures [registers-nobody] {C15} p.Store.reg == old(p.Store.reg)
 //@ ensures [authorised] {C04 C05 C06} effects != old(effects) ==> authorised("vipnode_update", nodeID, nonce) && verifiedUpdate(authArgs, req)
 //@ ensures [refused-error]    !(authOK && nonceOK) ==> typeis(err, VerifyFailedError)
@@ -293,10 +294,10 @@ package pool
 //@ ghost var lastPeers []store.Node
 
 //@ interface pool.Pool.Update(ctx, req) (result, err)
-//@ ensures [result] err == nil ==> result != nil
+//@ ensures [result] err == nil ==> result != nil && !old(allocated(ref(result)))
 //@ defines [count]  poolcalls == old(poolcalls) + 1 && lastPoolCall == "update" && lastUpdateOK == (err == nil) && lastUpdate == result
 //@                    && (err == nil ==> lastInvalid == result.InvalidPeers && lastActive == result.ActivePeers)
-//@ modifies poolcalls, lastPoolCall, lastUpdateOK, lastUpdate, lastInvalid, lastActive
+//@ modifies poolcalls, lastPoolCall, lastUpdateOK, lastUpdate, lastInvalid, lastActive, alloc
 
 //@ interface pool.Pool.Peer(ctx, req) (result, err)
 //@ ensures [result] err == nil ==> result != nil
